@@ -34,6 +34,26 @@ import (
 
 var root = "/verif"
 
+// repoPath is the Bytom tree the engines are built from: /repo, or a scratch
+// copy named by VERIF_REPO (used only for sensitivity experiments; evidence of
+// such runs is written under .build, never to /verif/evidence).
+var repoPath = "/repo"
+var altTag = ""
+
+func altModfile() string {
+	dir := filepath.Join(root, ".build", "alt-"+altTag)
+	os.MkdirAll(dir, 0o755)
+	b, err := os.ReadFile(filepath.Join(root, "go.mod"))
+	if err != nil {
+		fatal2("%v", err)
+	}
+	s := strings.ReplaceAll(string(b), "=> /repo", "=> "+repoPath)
+	os.WriteFile(filepath.Join(dir, "go.mod"), []byte(s), 0o644)
+	sum, _ := os.ReadFile(filepath.Join(root, "go.sum"))
+	os.WriteFile(filepath.Join(dir, "go.sum"), sum, 0o644)
+	return filepath.Join(dir, "go.mod")
+}
+
 func fatal2(format string, args ...any) {
 	fmt.Fprintf(os.Stderr, "check: HARNESS ERROR: "+format+"\n", args...)
 	os.Exit(2)
@@ -66,11 +86,18 @@ func goEnv() []string {
 }
 
 func buildEngine(p *propCfg) string {
-	out := filepath.Join(root, ".build", p.Engine+".test")
+	suffix := ""
+	if altTag != "" {
+		suffix = "." + altTag
+	}
+	out := filepath.Join(root, ".build", p.Engine+suffix+".test")
 	args := []string{"test", "-c", "-tags", "verif", "-o", out}
 	if p.Race {
-		out = filepath.Join(root, ".build", p.Engine+".race.test")
+		out = filepath.Join(root, ".build", p.Engine+suffix+".race.test")
 		args = []string{"test", "-c", "-race", "-tags", "verif", "-o", out}
+	}
+	if altTag != "" {
+		args = append(args, "-modfile", altModfile())
 	}
 	if p.Overlay != "" {
 		ov := buildOverlay(p)
@@ -90,7 +117,7 @@ func buildEngine(p *propCfg) string {
 
 // buildOverlay regenerates the instrumentation overlay from the current /repo.
 func buildOverlay(p *propCfg) string {
-	dir := filepath.Join(root, ".build", "overlay-"+p.Overlay)
+	dir := filepath.Join(root, ".build", "overlay-"+p.Overlay+altTag)
 	tool := filepath.Join(root, ".build", "instrument")
 	cmd := exec.Command("go1.26.8", "build", "-o", tool, "./tools/instrument")
 	cmd.Dir = root
@@ -98,7 +125,7 @@ func buildOverlay(p *propCfg) string {
 	if out, err := cmd.CombinedOutput(); err != nil {
 		fatal2("build of instrumenter failed: %v\n%s", err, out)
 	}
-	cmd = exec.Command(tool, "-profile", p.Overlay, "-repo", "/repo", "-out", dir)
+	cmd = exec.Command(tool, "-profile", p.Overlay, "-repo", repoPath, "-out", dir)
 	cmd.Dir = root
 	cmd.Env = goEnv()
 	if out, err := cmd.CombinedOutput(); err != nil {
@@ -224,6 +251,14 @@ func main() {
 		root = r
 	}
 	prop := os.Args[1]
+	if r := os.Getenv("VERIF_REPO"); r != "" && r != "/repo" {
+		abs, err := filepath.Abs(r)
+		if err != nil {
+			fatal2("%v", err)
+		}
+		repoPath = abs
+		altTag = fmt.Sprintf("%x", propHash(abs))[:8]
+	}
 	tier := os.Getenv("VERIF_TIER")
 	if tier == "" {
 		tier = "quick"
@@ -278,7 +313,7 @@ func main() {
 	p.ID = prop
 	start := time.Now()
 	bin := buildEngine(p)
-	runDir := filepath.Join(root, ".build", "run", prop)
+	runDir := filepath.Join(root, ".build", "run", prop+altTag)
 	os.RemoveAll(runDir)
 	if err := os.MkdirAll(runDir, 0o755); err != nil {
 		fatal2("%v", err)
@@ -599,8 +634,12 @@ func writeEvidence(p *propCfg, tier string, seed uint64, m *simkit.Report, disti
 		ev["harness_trouble"] = trouble
 	}
 	b, _ := json.MarshalIndent(ev, "", " ")
-	os.MkdirAll(filepath.Join(root, "evidence"), 0o755)
-	if err := os.WriteFile(filepath.Join(root, "evidence", p.ID+".json"), b, 0o644); err != nil {
+	evDir := filepath.Join(root, "evidence")
+	if altTag != "" {
+		evDir = filepath.Join(root, ".build", "run", p.ID+altTag)
+	}
+	os.MkdirAll(evDir, 0o755)
+	if err := os.WriteFile(filepath.Join(evDir, p.ID+".json"), b, 0o644); err != nil {
 		fatal2("%v", err)
 	}
 }
